@@ -130,8 +130,16 @@ def one_case(ctx, seed, idx):
         ctx.count('replace_mode' if replace else 'reuse_mode')
         # optionally a *different* locally known definition of the first interface
         decoy = None
+        decoy_before = None
         if r.random() < 0.5:
-            decoy = I.DBusInterface(r.choice(pairs)[1]['name'], I.Method('OnlyInDecoy', 'i', 's'))
+            dname = r.choice(pairs)[1]['name']
+            if r.random() < 0.5:
+                decoy = I.DBusInterface(dname, I.Method('OnlyInDecoy', 'i', 's'))
+            else:
+                # a local definition sharing member names with the remote one, but with other signatures
+                decoy = I.DBusInterface(dname, I.Method('Alpha', 'i', 's'), I.Signal('Beta', 'u'),
+                                        I.Property('Gamma', 'i'), I.Method('OnlyInDecoy'))
+            decoy_before = describe(decoy)
         try:
             parsed = X.getInterfacesFromXML(xml_text, replace)
         except Exception as e:
@@ -152,6 +160,11 @@ def one_case(ctx, seed, idx):
                     if got[0] is not decoy:
                         ctx.report('known-not-reused', 'a locally known interface was not reused although replacement was '
                                    'not requested', w, case)
+                    elif describe(decoy) != decoy_before:
+                        w['local_before'] = decoy_before
+                        w['local_after'] = describe(decoy)
+                        ctx.report('known-definition-altered', 'the locally known interface was reused but its definition was '
+                                   'overwritten by the remote one', w, case)
                     continue
                 ctx.count('known_replaced')
                 if got[0] is decoy or 'OnlyInDecoy' in got[0].methods:
